@@ -136,3 +136,11 @@ Definition via_prop_ok (tag : str) (maj min : N) (h : hmap) (r : via_result) : b
    white space (name-hex20 with a sane name) *)
 Definition tag_ok (tag : str) : bool :=
   negb (is_empty tag) && forallb (fun c => negb (c =? 44) && negb (is_ows c)) tag.
+
+(* ---------- instance identity ---------- *)
+Definition is_hexdigit (c : N) : bool := is_digit c || ((97 <=? c) && (c <=? 102)).
+(* NewViaModifier: tag = name ++ sep ++ hex(via_boundary_bytes random bytes) *)
+Definition tag_has_form (name tag : str) : bool :=
+  has_prefix tag (name ++ via_tag_sep) &&
+  let bnd := skipn (length (name ++ via_tag_sep)) tag in
+  Nat.eqb (length bnd) (2 * N.to_nat via_boundary_bytes) && forallb is_hexdigit bnd.
